@@ -306,7 +306,9 @@ def probe_pairs(c, d):
 def run(report, tier):
     E.setup_report(report, "C02")
     backends = ["f64", "dec"]
-    keys = E.dump_worlds(backends)
+    keys = E.dump_worlds(backends, fixture=True)
+    from props import synthdefs as _sd
+    rgen.EXTRA_SRC = _sd.SYNTH_RS
     pool = mpool.Pool()
     try:
         desc = E.describe_worlds(pool, keys)
